@@ -93,9 +93,16 @@ def _run_tier(mod, prop: str, tier: str, seed: int, t0: float) -> int:
     col = Collector()
 
     # ---- 1. replay tier: witnesses of listed findings, regression inputs -------------------
-    def matches_open(sig: list) -> dict | None:
+    dirty = os.environ.get("VERIF_DIRTY") == "1"
+
+    def matches_open(sig: list, from_campaign: bool = False) -> dict | None:
         for k in open_findings:
-            if runner.sig_matches(k["signature"], sig):
+            if from_campaign and k.get("exclude_features") and not dirty:
+                # campaign cases are built with this finding's trigger excluded by construction: a campaign bucket with
+                # the same signature is therefore a DIFFERENT violation and must be reported
+                continue
+            pats = k.get("signatures") or [k["signature"]]
+            if any(runner.sig_matches(p, sig) for p in pats):
                 return k
         return None
 
@@ -112,7 +119,11 @@ def _run_tier(mod, prop: str, tier: str, seed: int, t0: float) -> int:
             harness_errors.append(f"replay of {rel} crashed:\n{traceback.format_exc()}")
             return
         for v in viols:
-            k = matches_open(list(v.sig))
+            k = None
+            if expect is not None and any(runner.sig_matches(p, list(v.sig)) for p in (expect.get("signatures") or [expect.get("signature")])):
+                k = expect  # the witness of a finding is attributed to that finding first
+            if k is None:
+                k = matches_open(list(v.sig))
             if k is not None:
                 if k["id"] not in reported_known:
                     reported_known.add(k["id"])
@@ -145,33 +156,32 @@ def _run_tier(mod, prop: str, tier: str, seed: int, t0: float) -> int:
     harness_errors.extend(errs)
 
     # ---- 3. attribute / minimise buckets -----------------------------------------------------
-    shrink_budget = 90.0 if tier == "quick" else 240.0
+    shrink_budget = 90.0 if tier == "quick" else 300.0
+    unknown = []
     for key in sorted(col.violations):
         b = col.violations[key]
-        k = matches_open(b["sig"])
+        k = matches_open(b["sig"], from_campaign=True)
         if k is not None:
             if k["id"] not in reported_known:
                 reported_known.add(k["id"])
                 known_lines.append(f"KNOWN-FINDING: property={prop} {k['id']} {k['what']}")
             continue
-        case = b["case"]
-        target = b["sig"]
-
-        def still(c, target=target):
-            return any(list(v.sig) == target for v in _evaluate(mod, c))
-
-        small = case
+        unknown.append(b)
+    if unknown:
         if getattr(mod, "SHRINK", True):
             try:
-                if still(case):
-                    small, _ = runner.ddmin(case, still, budget_s=shrink_budget / max(1, min(4, len(col.violations))))
-                else:
-                    eprint(f"  note: bucket {target} did not reproduce through evaluate(); keeping unshrunk case")
+                shrunk = runner.shrink_buckets(mod.__name__, unknown, shrink_budget)
             except Exception:
                 eprint("  shrink failed:\n" + traceback.format_exc())
-        path = _write_replay(prop, b, small)
-        violation_lines.append(f"VIOLATION property={prop} replay={path}")
-        eprint(f"  bucket {b['sig']} x{b['count']}: {b['detail'][:800]}")
+                shrunk = [{"case": b["case"], "reproduced": False} for b in unknown]
+        else:
+            shrunk = [{"case": b["case"], "reproduced": True} for b in unknown]
+        for b, sres in zip(unknown, shrunk):
+            if not sres.get("reproduced"):
+                eprint(f"  note: bucket {b['sig']} did not reproduce through evaluate() ({sres.get('error', 'no violation on replay')}); unshrunk case kept")
+            path = _write_replay(prop, b, sres["case"])
+            violation_lines.append(f"VIOLATION property={prop} replay={path}")
+            eprint(f"  bucket {b['sig']} x{b['count']}: {b['detail'][:800]}")
 
     # ---- 4. evidence + verdict --------------------------------------------------------------
     level = getattr(mod, "LEVEL", "exploration")
